@@ -9,6 +9,8 @@ and judged by the properties that own those rules (C13/C14), not here.
 """
 from __future__ import annotations
 
+import copy
+
 from fractions import Fraction
 
 from . import score
@@ -140,21 +142,115 @@ class World(object):
                 ins.instrument_nr = spec[2]
         else:
             ins = None
-        t = Track(ins)
+        late = bool(op.get("late")) and ins is not None
+        t = Track(None if late else ins)
         if op.get("name") is not None:
             t.name = op["name"]
-        self.tracks.append(MTrack(t, spec, op.get("name")))
-        self.trace.ev("track", spec, op.get("name"))
+        mt = MTrack(t, spec, op.get("name"))
+        mt.pending_instr = ins if late else None
+        self.tracks.append(mt)
+        self.trace.ev("track", spec, op.get("name"), late)
 
     def op_tadd(self, op):
         mt = self.pick(self.tracks, op["track"])
         mb = self.pick(self.bars, op["bar"])
-        if mt is None or mb is None or mb.owner is not None:
+        if mt is None or mb is None:
             return
+        if mb.owner is not None:
+            if not op.get("again") or mb.owner != self.tracks.index(mt):
+                return
+            self.probes["same_bar_object_added_again"] += 1  # the same Bar object twice in one track: it is played / written twice
         mt.obj.add_bar(mb.obj)
         mb.owner = self.tracks.index(mt)
         mt.bars.append(self.bars.index(mb))
         self.trace.ev("tadd", op["track"], op["bar"])
+
+    def op_setinstr(self, op):
+        """the instrument is attached to the finished track (t.instrument = m), as the library's own example does"""
+        mt = self.pick(self.tracks, op["track"])
+        if mt is None or getattr(mt, "pending_instr", None) is None:
+            return
+        mt.obj.instrument = mt.pending_instr
+        mt.pending_instr = None
+        self.probes["instrument_attached_late"] += 1
+        self.trace.ev("setinstr", op["track"])
+
+    def op_setnote(self, op):
+        """one note of a placed chord is replaced through the container's item assignment (public API);
+        the container keeps its order, which need not be ascending any more"""
+        from mingus.containers.note import Note  # noqa: F401
+
+        mb = self.pick(self.bars, op["bar"])
+        if mb is None or not mb.entries:
+            return
+        cand = [i for i, e in enumerate(mb.entries) if e["notes"]]
+        if not cand:
+            return
+        i = cand[op["entry"] % len(cand)]
+        e = mb.entries[i]
+        j = op["pos"] % len(e["notes"])
+        spec = tuple(op["note"])
+        newp = score.pitch_of(spec[0], spec[1])
+        if any(k != j and score.pitch_of(n[0], n[1]) == newp for k, n in enumerate(e["notes"])):
+            return  # would repeat a pitch inside the container
+        mb.obj.bar[i][2][j] = self.make_note(spec)
+        e["notes"] = list(e["notes"])
+        e["notes"][j] = spec
+        ps = [score.pitch_of(n[0], n[1]) for n in e["notes"]]
+        if ps != sorted(ps):
+            self.probes["container_not_ascending_after_item_assignment"] += 1
+        self.trace.ev("setnote", op["bar"], i, j, list(spec))
+
+    def op_theory(self, op):
+        """Theory chatter: the program asks the core modules something (interval, chord, scale, key, note
+        arithmetic - also with names the library rejects) between building and playing / writing.  The
+        answers are not judged here; what is judged is that the music played or written afterwards is
+        still the music that was built, whatever was asked before."""
+        import importlib
+
+        from .kernel import LineBudget, SimBudgetExceeded
+
+        calls = op.get("calls") or []
+        self.probes["theory_chatter_ops"] += 1
+        for c in calls:
+            lb = LineBudget(400000)
+            try:
+                mod = importlib.import_module("mingus.core." + c["mod"])
+                fn = getattr(mod, c["fn"])
+                lb.call(fn, *copy.deepcopy(c["args"]))
+                out = "ok"
+            except SimBudgetExceeded:
+                out = "stall"  # a question that never returns is another property's business
+                self.probes["theory_chatter_call_cut_short"] += 1
+            except Exception as ex:
+                out = type(ex).__name__
+                self.probes["theory_chatter_call_refused"] += 1
+            self.trace.ev("theory", c["mod"], c["fn"], out)
+
+    def op_unison(self, op):
+        """a unison doubling inside one container: the second note of a chord is replaced by the pitch of
+        the first on another channel (item assignment; the container then holds one pitch twice)"""
+        mb = self.pick(self.bars, op["bar"])
+        if mb is None:
+            return
+        cand = [i for i, e in enumerate(mb.entries) if e["notes"] and len(e["notes"]) >= 2]
+        if not cand:
+            return
+        i = cand[op["entry"] % len(cand)]
+        e = mb.entries[i]
+        first = e["notes"][0]
+        ch = op["ch"]
+        if ch == first[2]:
+            ch = (ch + 1) % 16
+        spec = (first[0], first[1], ch, e["notes"][1][3])
+        if any(k != 1 and n[2] == ch and score.pitch_of(n[0], n[1]) == score.pitch_of(spec[0], spec[1]) for k, n in enumerate(e["notes"])):
+            return
+        mb.obj.bar[i][2][1] = self.make_note(spec)
+        e["notes"] = list(e["notes"])
+        e["notes"][1] = spec
+        mb.has_unison = True
+        self.probes["unison_on_two_channels_in_one_container"] += 1
+        self.trace.ev("unison", op["bar"], i, ch)
 
     def op_comp(self, op):
         from mingus.containers.composition import Composition
@@ -187,7 +283,7 @@ class World(object):
                     if not (nc is None or len(nc) == 0):
                         return False
                 else:
-                    got = [(n.name, n.octave, n.channel, n.velocity) for n in nc]
+                    got = [(n.name, n.octave, n.channel, n.velocity) for n in list(nc.notes)]
                     if got != [tuple(x) for x in me["notes"]]:
                         return False
             return True
@@ -199,6 +295,76 @@ class World(object):
 # generators for note material
 
 
+CHATTER_LETTERS = "CDEFGAB"
+CHATTER_NAMES = [l + acc * k for l in CHATTER_LETTERS for acc in ("#", "b") for k in range(0, 6)]
+CHATTER_BAD = ["H", "", "c", "Cx", "X#", "C-4", "do", "b", "#"]
+CHATTER_CORE = ("notes", "intervals", "keys", "scales", "chords", "progressions", "value", "meter")
+_CHATTER_ENTRIES = None
+
+
+def _chatter_entries():
+    global _CHATTER_ENTRIES
+    if _CHATTER_ENTRIES is None:
+        from . import catalog
+
+        _CHATTER_ENTRIES = [e for e in catalog.CATALOG if e["mod"] in CHATTER_CORE and "then" not in e and "kw" not in e]
+    return _CHATTER_ENTRIES
+
+
+def gen_theory(rng):
+    """One chatter op: a handful of questions to the core modules."""
+    def name():
+        r = rng.random()
+        if r < 0.08:
+            return rng.choice(CHATTER_BAD)
+        if r < 0.5:
+            return rng.choice(["C", "B", "Cb", "B#", "E", "F", "E#", "Fb", "G", "D", "A"])
+        return rng.choice(CHATTER_NAMES)
+
+    calls = []
+    style = rng.random()
+    if style < 0.15:
+        # a burst of spellings, more than any bounded table would keep
+        n = rng.choice([20, 40, 64, 70, 100, 140])
+        pool = list(dict.fromkeys(CHATTER_NAMES + CHATTER_BAD[:3]))
+        rng.shuffle(pool)
+        for nm in pool[:n]:
+            calls.append({"mod": "notes", "fn": rng.choice(["note_to_int", "note_to_int", "is_valid_note", "reduce_accidentals"]), "args": [nm]})
+        return {"op": "theory", "calls": calls}
+    for _ in range(rng.choice([1, 1, 2, 3, 5])):
+        r = rng.random()
+        if r < 0.35:
+            e = rng.choice(_chatter_entries())
+            calls.append({"mod": e["mod"], "fn": e["fn"], "args": copy.deepcopy(e["args"])})
+        elif r < 0.65:
+            fn = rng.choice(["note_to_int", "augment", "diminish", "reduce_accidentals", "remove_redundant_accidentals", "is_valid_note"])
+            calls.append({"mod": "notes", "fn": fn, "args": [name()]})
+        elif r < 0.8:
+            fn = rng.choice(["second", "third", "fourth", "fifth", "sixth", "seventh", "unison"])
+            calls.append({"mod": "intervals", "fn": fn, "args": [name(), rng.choice(MAJOR_KEYS + MINOR_KEYS)]})
+        elif r < 0.88:
+            calls.append({"mod": "intervals", "fn": "get_interval", "args": [name(), rng.randrange(0, 13), rng.choice(MAJOR_KEYS)]})
+        elif r < 0.94:
+            calls.append({"mod": "intervals", "fn": rng.choice(["measure", "determine", "is_consonant"]), "args": [name(), name()]})
+        else:
+            calls.append({"mod": rng.choice(["chords", "scales"]), "fn": "determine", "args": [[name() for _ in range(rng.choice([3, 3, 4]))]]})
+    return {"op": "theory", "calls": calls}
+
+
+def sprinkle_theory(rng, ops, p_head=0.3, p_between=0.03):
+    """Insert chatter ops into a program: before anything is built (a process that
+    has not converted a single note yet) and between the other steps."""
+    out = []
+    if rng.random() < p_head:
+        for _ in range(rng.choice([1, 1, 2])):
+            out.append(gen_theory(rng))
+    for op in ops:
+        out.append(op)
+        if rng.random() < p_between:
+            out.append(gen_theory(rng))
+    return out
+
+
 NAMES_SIMPLE = ["C", "D", "E", "F", "G", "A", "B", "C#", "Eb", "F#", "Ab", "Bb", "Db", "G#"]
 NAMES_EXOTIC = ["C##", "Dbb", "E#", "Fb", "B#", "Cb", "A##", "Gbb", "F##", "Bbb"]
 
@@ -206,7 +372,7 @@ MAJOR_KEYS = ["Cb", "Gb", "Db", "Ab", "Eb", "Bb", "F", "C", "G", "D", "A", "E", 
 MINOR_KEYS = ["ab", "eb", "bb", "f", "c", "g", "d", "a", "e", "b", "f#", "c#", "g#", "d#", "a#"]
 ALL_KEYS = MAJOR_KEYS + MINOR_KEYS
 
-METERS = [[2, 4], [3, 4], [4, 4], [5, 4], [6, 8], [3, 8], [7, 8], [9, 8], [12, 8], [2, 2], [3, 2], [4, 2], [6, 4], [4, 8], [1, 4], [4, 16], [1, 1]]
+METERS = [[2, 4], [3, 4], [4, 4], [5, 4], [6, 8], [3, 8], [7, 8], [9, 8], [12, 8], [2, 2], [3, 2], [4, 2], [6, 4], [4, 8], [1, 4], [4, 16], [1, 1], [1, 8], [3, 16], [1, 16], [2, 16], [128, 4096], [64, 1024]]
 
 
 def gen_note(rng, channel=None, exotic=0.15, lo=0, hi=115, vel_lo=0):
